@@ -449,6 +449,76 @@ func delayedVerify(cc *caseCtx, cur *pktgen.Built) {
 	}
 }
 
+// contextReuse: spec.ReadPacket hands its *PacketParsingContext to the caller and the generated
+// contexts have an exported Init() for re-use. One context per worker parses every signed packet
+// (Init; Parse); the covered wire it returned for the PREVIOUS packet is kept un-joined and must
+// still be the bytes that packet's signer was handed - and verify - after the context has been
+// re-initialised and has parsed the current packet.
+var (
+	sharedCtx  spec.PacketParsingContext
+	ctxPrev    *ctxHeld
+	ctxPrevLbl string
+)
+
+type ctxHeld struct {
+	cov   enc.Wire // as returned by the context, not copied
+	want  []byte
+	sig   ndn.Signature
+	sp    *pktgen.SignerSpec
+	valid bool // verified right after parsing
+}
+
+func contextReuse(cc *caseCtx, b *pktgen.Built, hasValidator bool) {
+	var cur *ctxHeld
+	func() {
+		defer func() {
+			if r := recover(); r != nil {
+				cc.viol("C12.cover", "re-used parsing context panics: "+pktgen.PanicSite(r), "", nil)
+			}
+		}()
+		sharedCtx.Init()
+		pkt, err := sharedCtx.Parse(enc.NewBufferReader(b.Bytes), false)
+		cc.stat["decodes"]++
+		cc.stat["context_reuse_parses"]++
+		if err != nil || pkt == nil {
+			cc.viol("C12.cover", "a re-initialised parsing context fails to parse a packet that a fresh one parses", fmt.Sprint(err), nil)
+			return
+		}
+		cur = &ctxHeld{want: b.Rec.Covered, sp: b.SignerSp}
+		switch {
+		case pkt.Data != nil:
+			cur.cov, cur.sig = sharedCtx.Data_context.SigCovered(), pkt.Data.Signature()
+		case pkt.Interest != nil:
+			cur.cov, cur.sig = sharedCtx.Interest_context.SigCovered(), pkt.Interest.Signature()
+		default:
+			cur = nil
+			return
+		}
+		if !bytes.Equal(cur.cov.Join(), cur.want) {
+			cc.viol("C12.cover", "SigCovered returned by a re-initialised parsing context differs from the bytes handed to the signer", b.SignerSp.Name, nil)
+			cur = nil
+			return
+		}
+		if hasValidator {
+			cur.valid = validate(cur.sp, dec{ok: true, sig: cur.sig, cov: cur.cov})
+		}
+	}()
+	prev, prevLbl := ctxPrev, ctxPrevLbl
+	ctxPrev, ctxPrevLbl = cur, cc.label
+	if prev == nil || cur == nil {
+		return
+	}
+	cc.stat["context_reuse_delayed_checks"]++
+	extra := map[string]any{"case": prevLbl, "next_case": cc.label}
+	switch {
+	case !bytes.Equal(prev.cov.Join(), prev.want):
+		cc.violRaw("C12.cover", "the signed portion a parsing context returned for one packet changes when the context is re-initialised and parses the next packet",
+			fmt.Sprintf("%s parsed, its SigCovered() kept; context.Init(); %s parsed: the kept wire no longer holds the bytes the first packet's signer was handed", prevLbl, cc.label), extra)
+	case prev.valid && !validate(prev.sp, dec{ok: true, sig: prev.sig, cov: prev.cov}):
+		cc.violRaw("C12.accept", "a packet parsed by a re-used parsing context no longer verifies after the context parsed the next packet ("+prev.sp.Family+")", prevLbl+" then "+cc.label, extra)
+	}
+}
+
 // rebuildFromName: Interest A (with parameters) was built and decodes. Two more Interests are
 // built with MakeInterest from (1) A's EncodedInterest.FinalName and (2) the name decoded from A's
 // own un-joined Wire - both end in a digest component whose bytes live inside A's wire - and
@@ -694,6 +764,11 @@ func evalCase(s *space, idx int, startBit int, careful bool, thorough bool, dead
 				cc.viol("C12.digest", "EncodedInterest.FinalName does not end in the parameters digest", "", nil)
 			}
 		}
+	}
+
+	// ---- C12.cover / C12.accept with a re-used parsing context
+	if signed && !resumed {
+		contextReuse(cc, b, hasValidator)
 	}
 
 	// ---- C12.digest (aliasing part): FinalName and decoded names point into the packet's wire.
@@ -1407,6 +1482,7 @@ func main() {
 			"key_material":         fmt.Sprintf("besides the default keys: HMAC keys of %v bytes (around the SHA-256 digest and block sizes) for the Data and the Interest HMAC signer, a second ECDSA P-256 key and a second RSA-2048 key, each on the four base shapes (all clauses incl. every-bit tampering)", pktgen.HmacKeyLens),
 			"outer_length_sweep":   "4 base shapes x every ECDSA mode x payload sizes putting the ESTIMATED outer length on 250..258 and 65533..65540; each case built until 3 different signature lengths were seen or 24 builds; cover+accept on every build (counters sweep_*)",
 			"signer_histories":     "per signer family (sha256, hmac, ecdsa, rsa): every ordered pair of signing calls over all modes of the family (incl. key variants and the RSA-384 signers whose every signing call fails) x {Data, Interest}, with one signer object per mode and with a fresh object per call, plus every triple with one failing call first or in the middle; each built packet checked (decode, cover, validator) right after signing and after the sequence; single-threaded, GC off inside a sequence",
+			"context_reuse":        "one spec.PacketParsingContext per worker parses every signed packet (Init; Parse): its SigCovered must equal the signer's input, and the wire it returned for the previous packet must be unchanged and still verify after Init + Parse of the current packet",
 			"delayed_verification": "each worker keeps ONE signer object per mode; the un-joined Wire of the previous packet a signer object signed is joined, decoded, compared with what the signer was handed and validated only after the same object signed the next packet",
 			"segmentation":         "C12.cover: every 1-cut (packets >1200 B: cuts within 2 bytes of element offsets), every 2-cut for packets <=100 B (thorough, <=1 deviation: <=400 B) else all pairs of element offsets, every 3-cut for packets <=56 B (thorough, <=1 deviation: <=112 B) else outer-header-end + every pair of element offsets (quick tier, deviated shapes: pairs at most 3 offsets apart)",
 			"tamper_decode_paths":  "every flipped packet is decoded from contiguous bytes and from 2 segments cut (a) in the middle and (b) right before the ApplicationParameters (Interest) / SignatureInfo (Data) element; accepted by any path counts as accepted",
